@@ -138,4 +138,50 @@ def set (s : St) (a iid v : Nat) : Option (St × Nat) := withOAs s (setOA s.maxI
 def tas (s : St) (a iid new old : Nat) : Option (St × Nat) := withOAs s (tasOA s.maxId s.oas a iid new old)
 def get (s : St) (a iid : Nat) : Option (St × Nat) := withOAs s (getOA s.entries s.maxId s.oas a iid)
 
+/-! ## Synchronisation footprint
+
+The sequence of atomic primitives (hook H1 kinds: `C` = CAS, `R` = read-modify-write, `F` = fence)
+each API call executes when it runs alone.  It is part of the correspondence: the theorems above
+treat each call as atomic *because* every access to the list / the slot array happens inside these
+lock sections; a change of the locking discipline changes the footprint. -/
+
+def fpListSection : String := "CF"                    -- parsec_list_lock … parsec_list_unlock
+def fpRdLock : String := "RF"
+def fpRdUnlock : String := "FR"
+def fpWrLock : String := "RRF"
+def fpWrUnlock : String := "FR"
+
+/-- `parsec_ioa_resize_and_rdlock` -/
+def fpResize (oa : OA) (iid : Nat) : String :=
+  if iid ≥ oa.length then fpRdLock ++ fpRdUnlock ++ fpWrLock ++ fpWrUnlock ++ fpRdLock else fpRdLock
+
+def fpSet (s : St) (a iid : Nat) : String :=
+  match s.oas[a]? with
+  | some oa => fpResize oa iid ++ fpRdUnlock
+  | none => ""
+
+def fpTas (s : St) (a iid : Nat) : String :=
+  match s.oas[a]? with
+  | some oa => fpResize oa iid ++ "C" ++ fpRdUnlock
+  | none => ""
+
+def fpGet (s : St) (a iid : Nat) : String :=
+  match s.oas[a]? with
+  | none => ""
+  | some oa =>
+    let pre := fpResize oa iid ++ fpRdUnlock
+    if slotOf (grow s.maxId oa iid) iid ≠ 0 then pre
+    else
+      match s.entries.find? (fun e => e.iid == iid) with
+      | none => pre
+      | some e =>
+        match e.ctor with
+        | none => pre ++ fpListSection
+        | some d => if d = 0 then pre ++ fpListSection else pre ++ fpListSection ++ fpRdLock ++ "C" ++ fpRdUnlock
+
+def fpUnregister (s : St) (iid : Nat) : String :=
+  match s.entries.find? (fun e => e.iid == iid) with
+  | none => fpListSection
+  | some e => if e.dtor then "CCFF" else fpListSection
+
 end ParsecVerif.Info
